@@ -255,12 +255,18 @@ func runIter(c *core.Ctx, pkg string, pair bool) {
 	c.Doc("leaves", 1, "leaf iterators")
 	c.Doc("foreach", 1, "drain idiom; f once per element; first error returned at once")
 	c.Doc("no-slice-write", 1, "no store into, and no append onto, a caller's slice")
+	c.Doc("state-persists", 1, "a method that assigns its receiver's fields has a pointer receiver (the iterator's progress is not written to a copy)")
 
 	// ---- generic rules on every function of the package
 	allFns := c.W.SourceFuncs(pkg)
+	nPersist := 0
 	for _, fn := range allFns {
 		if fn.Parent() != nil {
 			continue
+		}
+		if st := lostReceiverStore(fn); st != nil {
+			nPersist++
+			c.Fail("state-persists", sh+"."+fnLabel(fn), st.Pos(), "the method has a value receiver but assigns a field of it: the assignment changes a copy that dies with the call, so the iterator the caller holds never sees the new state")
 		}
 		// entry points only: exported constructors and the methods of the combinator types; unexported helper
 		// functions are covered where they are inlined (their callers establish their preconditions)
@@ -306,6 +312,9 @@ func runIter(c *core.Ctx, pkg string, pair bool) {
 		}
 	}
 
+	if nPersist == 0 {
+		c.Ok("state-persists", sh, 0, fmt.Sprintf("%d methods", len(allFns)))
+	}
 	takeWhileRules(c, pkg, pair)
 	dropWhileRules(c, pkg)
 	filterRules(c, pkg, pair)
@@ -318,6 +327,68 @@ func runIter(c *core.Ctx, pkg string, pair bool) {
 	if pair {
 		kvRules(c, pkg)
 	}
+}
+
+// lostReceiverStore: fn is a method with a value (struct) receiver and stores into a field of the receiver's
+// spilled copy while that copy is used for nothing but field accesses (never read whole, passed on or returned).
+func lostReceiverStore(fn *ssa.Function) ssa.Instruction {
+	recv := fn.Signature.Recv()
+	if recv == nil || len(fn.Params) == 0 {
+		return nil
+	}
+	if _, isPtr := recv.Type().(*types.Pointer); isPtr {
+		return nil
+	}
+	if _, isStruct := recv.Type().Underlying().(*types.Struct); !isStruct {
+		return nil
+	}
+	var spill *ssa.Alloc
+	for _, r := range *fn.Params[0].Referrers() {
+		if st, isSt := r.(*ssa.Store); isSt && st.Val == ssa.Value(fn.Params[0]) {
+			if a, isA := st.Addr.(*ssa.Alloc); isA {
+				spill = a
+			}
+		}
+	}
+	if spill == nil {
+		return nil
+	}
+	var lost ssa.Instruction
+	var visit func(addr ssa.Value) bool
+	visit = func(addr ssa.Value) bool {
+		for _, r := range *addr.Referrers() {
+			switch r := r.(type) {
+			case *ssa.FieldAddr:
+				for _, r2 := range *r.Referrers() {
+					switch r2 := r2.(type) {
+					case *ssa.Store:
+						if r2.Addr == ssa.Value(r) && lost == nil {
+							lost = r2
+						}
+					case *ssa.FieldAddr:
+						// nested struct field
+						if !visit(r) {
+							return false
+						}
+					}
+				}
+			case *ssa.Store:
+				if r.Addr != addr {
+					return false // the copy's address escapes
+				}
+			case *ssa.UnOp:
+				return false // the copy is read whole (returned / passed on): the change may be used
+			case *ssa.DebugRef:
+			default:
+				return false
+			}
+		}
+		return true
+	}
+	if !visit(spill) {
+		return nil
+	}
+	return lost
 }
 
 // arrivesAdvanced: path p starts at a loop head, and on every way into that head the last thing done with the
@@ -1348,7 +1419,7 @@ func flatMapAutomaton(c *core.Ctx, fn *ssa.Function, an *ir.Analysis, isCtor boo
 					stored := false
 					for j := i + 1; j < len(p.Steps); j++ {
 						s2 := &p.Steps[j]
-						if s2.Kind == ir.KStore && s2.A[0].Op == "faddr" && s2.A[0].Aux == cur && ir.Same(s2.A[1], st.R) {
+						if s2.Kind == ir.KStore && s2.A[0].Op == "faddr" && s2.A[0].Aux == cur && ir.Same(s2.A[1], st.R) && (isCtor || paramOf(s2.A[0].Args[0], fn, 0)) {
 							stored = true
 						}
 					}
